@@ -488,7 +488,7 @@ class List(list, base.Symbolic, pg_typing.CustomTyping):
     )
     if self._value_spec and flags.is_type_check_enabled():
       value = self._value_spec.element.apply(
-          value,
+          self._copy_container_owned_elsewhere(idx, value),
           allow_partial=allow_partial,
           transform_fn=base.symbolic_transform_fn(self._allow_partial),
           root_path=utils.KeyPath(idx, self.sym_path),
